@@ -371,7 +371,7 @@ def run(tier, seed, replay=None):
             return [(f'cut_after_step_{k - 1}', steps[:k]) for k in range(1, len(steps))]
         c8find = findings_for('C08')
         astats, afails, abroken, askipped, adisputed, apreps = c08.run_cases(R, ans_inputs, catd, rng, 3, 'C09ans', c8find, extra_alts=prefixes)
-        R.obligation(f'judge: the last step returns the rows of the query ({astats["judged"]} evaluations of {len(apreps)} plans in Coq)', not abroken)
+        n_before = len(R.violations)
         for e in abroken[:1]:
             broken.append(e)
         known_c8 = {f['classifier'].get('cured_by') for f in c8find if f['classifier'].get('kind') == 'plan_differs'}
@@ -392,6 +392,8 @@ def run(tier, seed, replay=None):
                          'what': f'the last step of the plan (#{p["nsteps"] - 1}) does not produce the answer of the query, the plan '
                                  f'{cuts[0].replace("_", " ")} does on every generated database'})
         stats['answer_judged'] = astats['judged']
+        R.obligation(f'judge: the last step returns the rows of the query ({astats["judged"]} evaluations of {len(apreps)} plans in Coq)',
+                     not abroken and len(R.violations) == n_before)
     # ---- internal errors while planning (exception hygiene): exploration
     for (ecls, site), (sql, cname, msg) in internal.items():
         fd = [f for f in findings if f['classifier'].get('kind') == 'internal_error'
